@@ -14,24 +14,52 @@
   * `entries_exact`       — get_sel_entries returns the log: every record, once, in order, for every
                             log of well-formed records with pairwise distinct ids, every limit ≥ 1.
   * `empty_log_nothing`   — an empty log yields [] after the single Get SEL Info exchange.
+  * `source_variant`      — what the theorems need of the variant read from today's pyipmi/sel.py (they are
+                            stated for THAT variant, `selVariant`): a floor of max_req_len, where there is
+                            one, leaves the 1-byte request possible; get_and_clear_sel_entry has a retry budget.
   * `get_and_clear_atomic`— for EVERY finite script of concurrent changes (reservation cancelled,
                             record appended, oldest record removed — before any request), every limit,
-                            every addressing mode (id, first, last): the call terminates within
-                            script length + 1 rounds; if it returns a record then that record is the
-                            one and only record the device deleted for it; if it raises, the device
-                            deleted nothing.
+                            every addressing mode (id, first, last) and EVERY retry budget: the call
+                            terminates (no fuel hypothesis: an exhausted budget is RetryError); if it
+                            returns a record then that record is the one and only record the device
+                            deleted for it; if it raises, the device deleted nothing.
+  * `get_and_clear_repeats_both_steps` — "both steps are repeated": while the addressed record is still in
+                            the log after every change and the script holds fewer changes than the budget
+                            has rounds, the call SUCCEEDS (returns a record, exactly that one deleted).
   * `get_and_clear_same_reservation` — for EVERY peer: a call that returns ended with
                             Reserve SEL → r, ≥ 1 Get SEL Entry all carrying r, Delete SEL Entry
                             carrying r, with nothing in between.
+  * `get_and_clear_unbounded_as_shipped` — the pinned `while True`: for every n a script of 2·n
+                            cancellations costs n rounds and the loop is still not done (the model is out
+                            of fuel whatever fuel it gets); the repaired loop ends the same scripts with
+                            RetryError after 2·budget requests.
+  * `entry_view_*`        — the decoded SelEntry (record id, type, timestamp, generator, EvM rev, sensor type /
+                            number, event direction / type, event data; OEM layouts) against IPMI table 32-1..3.
 -/
 import PyIpmi.Lemmas.XferSel
 import PyIpmi.Gen.Loops10
 namespace PyIpmi.Props.C12
 open PyIpmi PyIpmi.SelXfer PyIpmi.Spec.Sel
 open PyIpmi.FruXfer (Wire Xchg Send World Res xchg)
-open PyIpmi.Gen.Loops10 (selCfg)
+open PyIpmi.Gen.Loops10 (selCfg selVariant)
 
 theorem constants_ok : selCfg = stdCfg := by decide
+
+/-- What this property needs of today's pyipmi/sel.py (`selVariant`, read from the source on this run):
+where get_sel_entry has a floor for max_req_len it is not above 0 - a request of ONE byte is still
+made, so that a device with a partial-read limit of 1 byte is read (limits 1..16) -, and
+get_and_clear_sel_entry runs on a retry budget, so that it terminates whatever the peer does
+(`get_and_clear_atomic` has no fuel hypothesis).  A regression of either stops the build here.
+(That the floor EXISTS is C13's clause: Props.C13.source_variant.) -/
+theorem source_variant : floorOkB selVariant = true ∧ selVariant.budget.isSome = true := by decide
+
+theorem floor_ok : FloorOk selVariant := floorOk_of_B source_variant.1
+
+/-- the variant of the theorems below: the one of today's source -/
+abbrev V : Variant := selVariant
+
+/-- the repaired variant (the non-vacuity examples run on it whatever the tree says) -/
+abbrev VI : Variant := Variant.intended
 
 /-- `get_sel_entry(record_id, reservation)` on a device nobody else touches: the stored record and
 the id of the record after it (FFFFh after the last). -/
@@ -39,23 +67,25 @@ theorem get_entry_exact (d : SelDev) (r rid : Nat) (e : List Nat) (next : Nat) (
     (hquiet : d.evs = []) (hvalid : d.valid = true) (hcur : d.cur = r) (hr1 : 1 ≤ r) (hr : r < 65536)
     (hrid : rid < 65536) (hlimit : 1 ≤ d.limit) (hfind : find d.log rid = some (e, next))
     (hrec : entryOk e = true) (hnext : next < 65536) :
-    (getSelEntry selCfg respond ⟨d, tr⟩ rid r).out = .ok (e, next) := by
+    (getSelEntry selCfg V respond ⟨d, tr⟩ rid r).out = .ok (e, next) := by
   rw [constants_ok]
-  exact (getSelEntry_exact d r rid e next hquiet hvalid hcur hr1 hr hrid hfind hrec hnext hlimit ⟨d, tr⟩ rfl).1
+  exact (getSelEntry_exact d r rid e next hquiet hvalid hcur hr1 hr hrid hfind hrec hnext hlimit V floor_ok
+    ⟨d, tr⟩ rfl).1
 
 /-- `get_sel_entries()` returns every record exactly as stored, once each, in log order — whether
-the device serves whole records or only partial reads of any size ≥ 1. -/
+the device serves whole records or only partial reads of any size ≥ 1 (a limit of one byte included:
+the floor of the request length is below 1). -/
 theorem entries_exact (d : SelDev) (tr : List Xchg) (hquiet : d.evs = []) (hlimit : 1 ≤ d.limit)
     (hrec : ∀ e ∈ d.log, entryOk e = true) (hids : (d.log.map entryId).Nodup)
     (hlen : d.log.length < 65536) :
-    (selEntries selCfg respond ⟨d, tr⟩).out = .ok d.log := by
+    (selEntries selCfg V respond ⟨d, tr⟩).out = .ok d.log := by
   rw [constants_ok]
-  exact selEntries_exact d hquiet hlimit hrec hids hlen ⟨d, tr⟩ rfl
+  exact selEntries_exact d hquiet hlimit hrec hids hlen V floor_ok ⟨d, tr⟩ rfl
 
 /-- An empty log: nothing is returned and nothing but Get SEL Info is asked. -/
 theorem empty_log_nothing (d : SelDev) (tr : List Xchg) (hquiet : d.evs = []) (hempty : d.log = []) :
-    (selEntries selCfg respond ⟨d, tr⟩).out = .ok [] ∧
-    ∃ rsp, (selEntries selCfg respond ⟨d, tr⟩).w.trace = tr ++ [⟨infoReq, rsp⟩] := by
+    (selEntries selCfg V respond ⟨d, tr⟩).out = .ok [] ∧
+    ∃ rsp, (selEntries selCfg V respond ⟨d, tr⟩).w.trace = tr ++ [⟨infoReq, rsp⟩] := by
   rw [constants_ok]
   have htick : tick d = d := tick_nil d hquiet
   unfold selEntries
@@ -65,44 +95,139 @@ theorem empty_log_nothing (d : SelDev) (tr : List Xchg) (hquiet : d.evs = []) (h
   simp only [this, if_true]
   first | exact ⟨rfl, _, rfl⟩ | exact ⟨trivial, _, rfl⟩
 
-/-- `get_and_clear_sel_entry(record_id)` is atomic under every finite script of concurrent log
-changes: it terminates, and either returns exactly the record the device deleted (one deletion,
+/-- `get_and_clear_sel_entry(record_id, retry)` is atomic under every finite script of concurrent log
+changes and for EVERY retry budget: it terminates (the model never runs out of fuel - an exhausted
+budget is RetryError), and either returns exactly the record the device deleted (one deletion,
 carrying a reservation id `r`), or raises with nothing deleted. -/
-theorem get_and_clear_atomic (d : SelDev) (tr : List Xchg) (rid fuel : Nat) (hrid : rid < 65536)
-    (hwf : WF d) (hnone : d.deleted = []) (hfuel : d.evs.length < fuel) :
-    let res := getAndClear selCfg respond fuel ⟨d, tr⟩ rid
+theorem get_and_clear_atomic (d : SelDev) (tr : List Xchg) (rid retry : Nat) (hrid : rid < 65536)
+    (hwf : WF d) (hnone : d.deleted = []) :
+    let res := getAndClear selCfg V respond retry ⟨d, tr⟩ rid
     (∃ e r, res.out = .ok e ∧ res.w.dev.deleted = [(e, r)]) ∨
     ((∀ e, res.out ≠ .ok e) ∧ res.out ≠ .pyError "nontermination" ∧ res.w.dev.deleted = []) := by
   rw [constants_ok]
-  exact getAndClear_atomic rid hrid fuel ⟨d, tr⟩ hwf hnone hfuel
+  exact getAndClear_atomic rid hrid V floor_ok retry ⟨d, tr⟩ hwf hnone (Or.inl source_variant.2)
+
+/-- **"Both steps are repeated."**  If the addressed record is still in the log after every change
+of the script (`Always (Avail rid)`: `rid` - an id, 0000h "first" or FFFFh "last" - designates a
+record and every record is of a known type, now and after each further change), and the script
+holds fewer changes than the call has rounds, get-and-clear SUCCEEDS: it returns a record, and
+the device has deleted exactly that record - however the cancellations fall between Reserve,
+the partial reads and the Delete. -/
+theorem get_and_clear_repeats_both_steps (d : SelDev) (tr : List Xchg) (rid retry : Nat) (hrid : rid < 65536)
+    (hwf : WF d) (hnone : d.deleted = []) (hfew : nch d.evs < retry) (havail : Always (Avail rid) d.log d.evs) :
+    ∃ e r, (getAndClear selCfg V respond retry ⟨d, tr⟩ rid).out = .ok e ∧
+      (getAndClear selCfg V respond retry ⟨d, tr⟩ rid).w.dev.deleted = [(e, r)] := by
+  rw [constants_ok]
+  exact getAndClear_succeeds rid hrid V floor_ok retry ⟨d, tr⟩ hwf hnone hfew havail
 
 /-- Whatever the peer does: a `get_and_clear_sel_entry` that returns has ended with a Reserve SEL
 answered `r`, then one or more Get SEL Entry requests for `rid` all carrying `r`, then the
 (acknowledged) Delete SEL Entry for `rid` carrying `r` — the delete is issued under the same
 reservation as the read, and after a cancellation both steps were repeated from the reserve. -/
-theorem get_and_clear_same_reservation {σ} (send : Send σ) (dev : σ) (rid fuel : Nat) (e : List Nat)
-    (h : (getAndClear selCfg send fuel ⟨dev, []⟩ rid).out = .ok e) :
+theorem get_and_clear_same_reservation {σ} (send : Send σ) (dev : σ) (rid retry : Nat) (e : List Nat)
+    (h : (getAndClear selCfg V send retry ⟨dev, []⟩ rid).out = .ok e) :
     ∃ pre rspR r gets rspD,
-      (getAndClear selCfg send fuel ⟨dev, []⟩ rid).w.trace =
+      (getAndClear selCfg V send retry ⟨dev, []⟩ rid).w.trace =
         pre ++ ⟨reserveReq, rspR⟩ :: (gets ++ [⟨deleteReq r rid, rspD⟩]) ∧
       decodeU16Rsp rspR = .ok r ∧ (∀ x ∈ gets, ∃ off len, x.req = getReq r rid off len) ∧ gets ≠ [] ∧
       ∃ v, decodeU16Rsp rspD = .ok v :=
-  getAndClear_trace selCfg send rid fuel ⟨dev, []⟩ e h
+  getAndClear_trace selCfg V send rid retry ⟨dev, []⟩ e h
+
+/-- a device on which another party cancels the reservation before each of the next 2·n requests -/
+def cancelling (n : Nat) (d : SelDev) : SelDev := { d with evs := List.replicate (2 * n) (some .cancel) }
+
+/-- **As shipped** get_and_clear_sel_entry is `while True`: for every n the script of 2·n
+cancellations costs n complete rounds (2·n requests: Reserve SEL, Get SEL Entry answered C5h) and the
+loop is still not done - whatever fuel the model is given, some finite script uses it up, i.e. the
+number of requests is not bounded by anything but the peer.  The repaired loop ends the very same
+scripts with RetryError after 2·retry requests. -/
+theorem get_and_clear_unbounded_as_shipped (d : SelDev) (rid n : Nat) (hrid : rid < 65536) :
+    (getAndClear selCfg .asShipped respond n ⟨cancelling n d, []⟩ rid).out = .pyError "nontermination" ∧
+    (getAndClear selCfg .asShipped respond n ⟨cancelling n d, []⟩ rid).w.trace.length = 2 * n ∧
+    (getAndClear selCfg VI respond n ⟨cancelling n d, []⟩ rid).out = .retryError ∧
+    (getAndClear selCfg VI respond n ⟨cancelling n d, []⟩ rid).w.trace.length = 2 * n := by
+  rw [constants_ok]
+  have a := getAndClear_cancelled_rounds .asShipped rid hrid n ⟨cancelling n d, []⟩ rfl
+  have b := getAndClear_cancelled_rounds VI rid hrid n ⟨cancelling n d, []⟩ rfl
+  exact ⟨a.1, by simpa using a.2, b.1, by simpa using b.2⟩
+
+/-! ### record decoding: the SelEntry object against the record formats of IPMI §32 -/
+
+section decoding
+open PyIpmi.Spec.SelRecord
+
+/-- **System event record (type 02h, table 32-1).**  Every field of the view comes back in the
+attribute of that name: record id, timestamp, generator id (16 bit), EvM rev, sensor type, sensor
+number, event direction (bit 7 of byte 13: deassertion), event type (bits 6:0), event data 1..3 -
+and `data` is the 16 bytes. -/
+theorem entry_view_system (id ts gen evm st sn : Nat) (de : Bool) (et d1 d2 d3 : Nat)
+    (h : (RecView.system id ts gen evm st sn de et d1 d2 d3).Wf) :
+    decodeEntry (RecView.system id ts gen evm st sn de et d1 d2 d3).encode =
+      .ok ⟨(RecView.system id ts gen evm st sn de et d1 d2 d3).encode, id, 2, ts, gen, evm, st, sn, de, et, [d1, d2, d3]⟩ :=
+  decode_system id ts gen evm st sn de et d1 d2 d3 h
+
+/-- **OEM records (tables 32-2, 32-3).**  Timestamped (C0h–DFh): accepted, `data` the 16 bytes,
+record id, type and timestamp as laid out; non-timestamped (E0h–FFh): accepted, `data`, record id and
+type.  (The manufacturer id / OEM bytes have no attribute of their own; they are in `data`.) -/
+theorem entry_view_oem (id t ts mfg o1 o2 o3 o4 o5 o6 o7 o8 o9 o10 o11 o12 o13 : Nat) :
+    ((RecView.oemTimestamped id t ts mfg [o1, o2, o3, o4, o5, o6]).Wf →
+      ∃ a, decodeEntry (RecView.oemTimestamped id t ts mfg [o1, o2, o3, o4, o5, o6]).encode = .ok a ∧
+        a.data = (RecView.oemTimestamped id t ts mfg [o1, o2, o3, o4, o5, o6]).encode ∧
+        a.recordId = id ∧ a.type = t ∧ a.timestamp = ts) ∧
+    ((RecView.oemPlain id t [o1, o2, o3, o4, o5, o6, o7, o8, o9, o10, o11, o12, o13]).Wf →
+      ∃ a, decodeEntry (RecView.oemPlain id t [o1, o2, o3, o4, o5, o6, o7, o8, o9, o10, o11, o12, o13]).encode = .ok a ∧
+        a.data = (RecView.oemPlain id t [o1, o2, o3, o4, o5, o6, o7, o8, o9, o10, o11, o12, o13]).encode ∧
+        a.recordId = id ∧ a.type = t) :=
+  ⟨decode_oemTimestamped id t ts mfg o1 o2 o3 o4 o5 o6,
+   decode_oemPlain id t o1 o2 o3 o4 o5 o6 o7 o8 o9 o10 o11 o12 o13⟩
+
+/-- Only 16 bytes of a record type the specification defines are accepted, and they are kept as
+they are; what `get_sel_entry` returns IS that decoding (`selEntry` of the transfer model). -/
+theorem entry_decoding_strict (data : List Nat) (next : Nat) :
+    (∀ a, decodeEntry data = .ok a →
+      data.length = 16 ∧ (data.getD 2 0 = 2 ∨ (0xC0 ≤ data.getD 2 0 ∧ data.getD 2 0 < 0x100)) ∧ a.data = data ∧
+        a.type = data.getD 2 0) ∧
+    selEntry data next = (match decodeEntry data with
+      | .ok a => .ok (a.data, next)
+      | _ => .decodingError) :=
+  ⟨fun a h => decode_strict data a h, selEntry_decode data next⟩
+
+end decoding
 
 /-! ### non-vacuity -/
 
-def recA : List Nat := [0x34, 0x12, 0x02, 1, 2, 3, 4, 0x20, 0, 4, 1, 0x10, 0x6F, 0xA1, 0xB2, 0xC3]
+def recA : List Nat := [0x34, 0x12, 0x02, 1, 2, 3, 4, 0x20, 0x41, 4, 0x0C, 0x10, 0xEF, 0xA1, 0xB2, 0xC3]
 def recB : List Nat := [0x01, 0x00, 0xC5, 9, 9, 9, 9, 7, 7, 7, 7, 7, 7, 0xFF, 0xFE, 0xFD]
 def recC : List Nat := [0xFE, 0xFF, 0xE0, 0, 0, 0, 0, 0, 0, 0, 0, 0, 0, 0, 0, 1]
+
+/-- record A is the system event "id 1234h, time 04030201h, generator 4120h, EvM 4, sensor type 0Ch
+number 10h, deassertion of event type 6Fh, data A1 B2 C3" -/
+example : recA = (Spec.SelRecord.RecView.system 0x1234 0x04030201 0x4120 4 0x0C 0x10 true 0x6F 0xA1 0xB2 0xC3).encode ∧
+    (Spec.SelRecord.RecView.system 0x1234 0x04030201 0x4120 4 0x0C 0x10 true 0x6F 0xA1 0xB2 0xC3).Wf := by
+  refine ⟨by decide, ?_⟩
+  simp [Spec.SelRecord.RecView.Wf]
+example : decodeEntry recA = .ok ⟨recA, 0x1234, 2, 0x04030201, 0x4120, 4, 0x0C, 0x10, true, 0x6F, [0xA1, 0xB2, 0xC3]⟩ := by
+  decide
+example : decodeEntry (recA.set 2 0x03) = .decodingError ∧ decodeEntry (recA ++ [0]) = .decodingError := by decide
 
 /-- three records (system event, OEM timestamped, OEM non-timestamped), ids 1234h, 0001h, FFFEh,
 partial reads of at most 5 bytes, no whole-record reads, reservation counter about to wrap -/
 def demoDev : SelDev := ⟨[recA, recB, recC], 5, false, 0xFFFF, false, [], []⟩
 
 example : (∀ e ∈ demoDev.log, entryOk e = true) ∧ (demoDev.log.map entryId).Nodup := by decide
-example : (selEntries selCfg respond ⟨demoDev, []⟩).out = .ok [recA, recB, recC] := by decide
+example : (selEntries selCfg VI respond ⟨demoDev, []⟩).out = .ok [recA, recB, recC] := by decide
 /-- Get SEL Info, Reserve SEL, then per record: FFh, 16, 15, …, 6 refused (12), 5+5+5+1 served (4) -/
-example : (selEntries selCfg respond ⟨demoDev, []⟩).w.trace.length = 2 + 3 * 16 := by decide
+example : (selEntries selCfg VI respond ⟨demoDev, []⟩).w.trace.length = 2 + 3 * 16 := by decide
+/-- a device that serves one byte at a time is still read completely: FFh, 16 … 2 refused, 16 × 1 byte -/
+example : (selEntries selCfg VI respond ⟨{ demoDev with limit := 1 }, []⟩).out = .ok [recA, recB, recC] ∧
+    (selEntries selCfg VI respond ⟨{ demoDev with limit := 1 }, []⟩).w.trace.length = 2 + 3 * 32 := by decide
+/-- … and one that serves nothing at all (limit 0, outside the property) is given up on after FFh,
+16 … 1 with RetryError; as shipped the next request asked for 0 bytes (refused CCh by this device) -/
+example : (getSelEntry selCfg VI respond ⟨{ demoDev with limit := 0, valid := true }, []⟩ 0 0xFFFF).out = .retryError ∧
+    (getSelEntry selCfg VI respond ⟨{ demoDev with limit := 0, valid := true }, []⟩ 0 0xFFFF).w.trace.length = 17 ∧
+    (getSelEntry selCfg .asShipped respond ⟨{ demoDev with limit := 0, valid := true }, []⟩ 0 0xFFFF).out = .ccError 0xCC ∧
+    (getSelEntry selCfg .asShipped respond ⟨{ demoDev with limit := 0, valid := true }, []⟩ 0 0xFFFF).w.trace.length = 18 := by
+  decide
 
 example : WF demoDev := ⟨by decide, (by intro e h; simp [demoDev] at h), by decide⟩
 
@@ -112,24 +237,30 @@ and deleted, under reservation 3 -/
 def script : List (Option Change) :=
   (List.replicate 4 none) ++ [some .cancel] ++ (List.replicate 17 none) ++ [some (.add recC)]
 
-example : (getAndClear selCfg respond 40 ⟨{ demoDev with log := [recA, recB], evs := script }, []⟩ 1).out
+example : (getAndClear selCfg VI respond 5 ⟨{ demoDev with log := [recA, recB], evs := script }, []⟩ 1).out
     = .ok recB := by decide
-example : (getAndClear selCfg respond 40 ⟨{ demoDev with log := [recA, recB], evs := script }, []⟩ 1).w.dev.deleted
+example : (getAndClear selCfg VI respond 5 ⟨{ demoDev with log := [recA, recB], evs := script }, []⟩ 1).w.dev.deleted
     = [(recB, 3)] := by decide
-example : (getAndClear selCfg respond 40 ⟨{ demoDev with log := [recA, recB], evs := script }, []⟩ 1).w.dev.log
+example : (getAndClear selCfg VI respond 5 ⟨{ demoDev with log := [recA, recB], evs := script }, []⟩ 1).w.dev.log
     = [recA, recC] := by decide
+/-- the hypotheses of `get_and_clear_repeats_both_steps` hold for it: 2 changes < 5 rounds, record 0001h always there -/
+example : nch script < 5 ∧ nch script = 2 := by decide
 
 /-- "first record" while another party removes the oldest record during the read: the read is
 repeated and the record returned is the one deleted (B), not the one whose first bytes were
 already in hand (A) -/
-example : (getAndClear selCfg respond 40
+example : (getAndClear selCfg VI respond 5
     ⟨{ demoDev with log := [recA, recB], evs := List.replicate 15 none ++ [some .delFirst] }, []⟩ 0).out
     = .ok recB := by decide
-example : (getAndClear selCfg respond 40
+example : (getAndClear selCfg VI respond 5
     ⟨{ demoDev with log := [recA, recB], evs := List.replicate 15 none ++ [some .delFirst] }, []⟩ 0).w.dev.deleted
     = [(recB, 2)] := by decide
 
 /-- a record that is not there: the device's CBh is raised, nothing deleted -/
-example : (getAndClear selCfg respond 5 ⟨demoDev, []⟩ 0x7777).out = .ccError 0xCB := by decide
+example : (getAndClear selCfg VI respond 5 ⟨demoDev, []⟩ 0x7777).out = .ccError 0xCB := by decide
+
+/-- five cancellations in a row exhaust the default budget: RetryError, nothing deleted, 10 requests -/
+example : (getAndClear selCfg VI respond 5 ⟨cancelling 5 demoDev, []⟩ 1).out = .retryError ∧
+    (getAndClear selCfg VI respond 5 ⟨cancelling 5 demoDev, []⟩ 1).w.dev.deleted = [] := by decide
 
 end PyIpmi.Props.C12
